@@ -102,6 +102,11 @@ def _run_units(cfg, scratch, support_dir, tier, seed):
             ur = R.run_unit(u, scratch, support_dir, tier, seed + 17 * tries, rlimit=30 * 2 ** tries)
             att = R.attribute(ur)
         ur.attributed = att
+        # vacuity guard (units that carry obligations of this property only)
+        ur.vacuous = []; ur.n_canaries = 0
+        if u in cfg['units']:
+            vac, ncan = R.run_canary(u, scratch, support_dir, tier, seed, ur)
+            ur.vacuous = vac; ur.n_canaries = ncan
         results[u] = ur
         if R.UNITS[u].get('export'):
             rlib = os.path.join(scratch, 'lib%s.rlib' % R.UNITS[u]['crate'])
@@ -151,6 +156,14 @@ def _check(prop, cfg, tier, seed, scratch, t0):
                         violations.append(a)
                 else:
                     other_prop_failures.append(a)
+        # vacuity guard
+        if getattr(ur, 'vacuous', []) is None:
+            undecided.append('unit %s: the vacuity canary run did not complete' % uname)
+        else:
+            for c in getattr(ur, 'vacuous', []):
+                fi = next((f for f in ur.report['functions'] if f['key'] == c['fn']), None)
+                if fi and (prop in (fi.get('props') or []) or prop in (fi.get('implicit') or [])):
+                    undecided.append('vacuity: `assert(false)` at the entry of %s VERIFIES - its precondition or the assumptions in scope are contradictory' % c['fn'])
         # census + obligations of this property in this unit
         crate = R.UNITS[uname]['crate']
         failed_obs = {a['ob'] for a in ur.attributed if a['kind'] == 'verification'}
@@ -331,6 +344,7 @@ def _check(prop, cfg, tier, seed, scratch, t0):
         'lemmas': lemma_rows,
         'back_end': 'Verus 0.2026.09.13 / Z3 (one SMT query group per function; obligations = named contract clauses + one implicit group per function (callee preconditions, overflow, bounds, unreachable panics) + proved lemmas)',
         'verus_totals': {u: {'verified': ur.verified, 'errors': ur.nerrors, 'wall_s': round(ur.wall, 2)} for u, ur in results.items()},
+        'vacuity_guard': {u: {'canaries': getattr(ur, 'n_canaries', 0), 'verified_although_false': [c['fn'] for c in (getattr(ur, 'vacuous', []) or [])]} for u, ur in results.items()},
         'support_crates': {k: {'verified': v['verified'], 'wall_s': v['wall_s']} for k, v in support_res.items()},
         'bounded_standins': [{k: v for k, v in b.items() if k not in ('violations',)} for b in bounded_rows],
         'assumption_scan': {'counts': counts, 'per_file': per_file},
